@@ -59,6 +59,8 @@ pub struct Outcome {
     /// number of sub-executions and how many of them were non-trivial
     pub sub_evals: u64,
     pub sub_nontrivial: u64,
+    /// set when the case could not be decided (e.g. a schedule controller timed out): exit 2, never a violation
+    pub inconclusive: Option<String>,
 }
 
 impl Outcome {
@@ -374,6 +376,9 @@ impl Stats {
             *self.labels.entry(l.clone()).or_insert(0) += 1;
         }
         self.sub_evals += out.sub_evals;
+        if let Some(why) = &out.inconclusive {
+            *self.labels.entry(format!("ABORT:inconclusive:{why}")).or_insert(0) += 1;
+        }
         if out.nontrivial {
             let fp = fingerprint(case);
             let new = self.nontrivial.insert(fp);
